@@ -1411,6 +1411,7 @@ impl MonthShape {
             }
             Gapped { .. } if day_ordinal == 0 => None,
             Gapped { gap_start, .. } if day_ordinal < gap_start => Some(day_ordinal),
+            Gapped { max_day, .. } if day_ordinal > max_day => None,
             Gapped {
                 gap_start,
                 gap_end,
